@@ -425,9 +425,9 @@ theorem code_matches_model :
        "c.filter.Reset()"] ∧
     Gen.Client.loopWrite =
       ["var ( req *simpleRequest err error )",
-       "for { select { case <-c.quit: return case req = <-c.pendingReqs: } verifPause(\"client.write.taken\", c) switch c.filter.Do(req) { case Continue: case Stop: continue } err = c.enc.Encode(req.Body()) if err != nil { goto FAIL } if len(c.pendingReqs) == 0 { if err = c.enc.Flush(); err != nil { goto FAIL } } verifPause(\"client.write.handoff\", c) select { case <-c.quit: req.SetResponse(newError(backendExited)) return case c.processingReqs <- req: } }",
-       "FAIL: req.SetResponse(newError(err.Error()))",
-       "c.logger.Warnf(\"loop write exit: %v\", err)"] ∧
+      "for { select { case <-c.quit: return case req = <-c.pendingReqs: } verifPause(\"client.write.taken\", c) switch c.filter.Do(req) { case Continue: case Stop: if len(c.pendingReqs) == 0 { if err = c.enc.Flush(); err != nil { c.logger.Warnf(\"loop write exit: %v\", err) return } } continue } err = c.enc.Encode(req.Body()) if err != nil { goto FAIL } if len(c.pendingReqs) == 0 { if err = c.enc.Flush(); err != nil { goto FAIL } } verifPause(\"client.write.handoff\", c) select { case <-c.quit: req.SetResponse(newError(backendExited)) return case c.processingReqs <- req: } }",
+      "FAIL: req.SetResponse(newError(err.Error()))",
+      "c.logger.Warnf(\"loop write exit: %v\", err)"] ∧
     Gen.Client.loopRead =
       ["for { resp, err := c.dec.Decode() if err != nil { if err != io.EOF && !strings.Contains(err.Error(), \"use of closed network connection\") { c.logger.Warnf(\"loop read exit: %v\", err) } return } verifPause(\"client.read.pair\", c) var req *simpleRequest select { case req = <-c.processingReqs: case <-c.quit: return } c.handleResp(req, resp) }"] ∧
     Gen.Client.drainRequests =
@@ -514,6 +514,47 @@ theorem shutdown_completes (cap : Nat) (pre : List Label) (s : Cl) (h : run (ini
       rw [hstuck l hl] at hen
       cases hen
 
+/-! ### the write buffer (F-02f) -/
+
+/-- the write buffer holds something only while the writer still has a request to write -/
+def WB (s : Cl) : Prop :=
+  (s.writer = .top ∨ ∃ id, s.writer = .handoff id) → s.pending = [] → s.unflushed = []
+
+theorem wb_step (s s' : Cl) (l : Label) (hi : Inv s) (hw : WB s) (hs : step s l = some s') : WB s' := by
+  have hlate := hi.writerGone
+  unfold WB at *
+  cases l <;> simp only [step] at hs <;> (repeat' split at hs) <;> (try cases hs) <;>
+    (simp_all [answer, lateStarter])
+
+
+theorem wb_run (ls : List Label) : ∀ (s s' : Cl), Inv s → WB s → run s ls = some s' → WB s' := by
+  induction ls with
+  | nil => intro s s' _ hw h; simp [run] at h; subst h; exact hw
+  | cons l ls ih =>
+    intro s s' hi hw h
+    simp only [run] at h
+    cases hs : step s l with
+    | none => simp [hs] at h
+    | some s1 => simp only [hs] at h; exact ih s1 s' (inv_step s s1 l hi hs) (wb_step s s1 l hi hw hs) h
+
+/-- **Nothing is left in the write buffer of an idle writer.** After every interleaving of
+senders, writer, reader, filter rejections, Stop and connection loss: whenever the writer is
+back at the top of its loop (or about to hand over) with no request pending, everything it
+encoded has been flushed to the backend — so a request accepted for a healthy connection does
+not wait for some later request to push it out (F-02f). -/
+theorem nothing_left_in_the_write_buffer (cap : Nat) (ls : List Label) (s : Cl) (h : run (init cap) ls = some s)
+    (ht : s.writer = .top) (hp : s.pending = []) : s.unflushed = [] :=
+  wb_run ls _ s (inv_init cap) (by intro _ _; rfl) h (Or.inl ht) hp
+
+/-- F-02f, the behaviour before the repair: request 0 is encoded while request 1 is pending (so it
+is not flushed), request 1 is then answered by a filter (a command banned under compression), and
+the writer goes back to sleep with request 0 still in its buffer: the backend never sees it. -/
+theorem old_filter_stop_leaves_a_request_unflushed :
+    ∃ s s', run (init 4) [.sendBegin 0, .sendEnq 0, .sendBegin 1, .sendEnq 1, .wTake, .wEncodeOk, .wHandoff, .wTake] = some s ∧
+      oldFilterStop s = some s' ∧ s'.writer = .top ∧ s'.pending = [] ∧ s'.unflushed = [0] ∧ s'.processing = [0] := by
+  refine ⟨_, _, rfl, rfl, ?_⟩
+  decide
+
 end SamVerif.Props.C02
 
 #print axioms SamVerif.Props.C02.answered_at_most_once
@@ -527,3 +568,5 @@ end SamVerif.Props.C02
 #print axioms SamVerif.Props.C02.old_send_races_drain
 #print axioms SamVerif.Props.C02.code_matches_model
 #print axioms SamVerif.Props.C02.shutdown_completes
+#print axioms SamVerif.Props.C02.nothing_left_in_the_write_buffer
+#print axioms SamVerif.Props.C02.old_filter_stop_leaves_a_request_unflushed
